@@ -7812,19 +7812,26 @@ func ruleFetchedTxUngated(c *Ctx) {
 // type of package consensus with a DecodeBinary method, every field the decoder assigns is read somewhere outside the
 // type's own encoder/decoder (a composite-literal key and the left side of an assignment are writes, not reads).
 func ruleWireFieldUsed(c *Ctx) {
-	pk := c.P.Pkg("pkg/consensus")
-	if pk == nil {
+	// Only the consensus messages: their compact forms exist to be rebuilt into the payloads they were made from. In
+	// the P2P payloads a decoded field nothing reads is informational by design (Ping.Nonce, Version.Timestamp,
+	// AddressAndTime.Timestamp; MerkleBlock has no handler at all) - tried, twelve such fields, none a defect.
+	const all = false
+	if c.P.Pkg("pkg/consensus") == nil {
 		c.Lost("wire-field-used.pkg", "package consensus not loaded")
 		return
 	}
-	info := pk.TypesInfo
 	type tinfo struct {
 		nt     *types.Named
 		fields map[*types.Var]token.Pos
 	}
 	var ts []*tinfo
 	for _, fd := range c.P.AllFuncDecls() {
-		if fd.Pkg != pk || fd.Decl.Recv == nil || fd.Decl.Body == nil || fd.Decl.Name.Name != "DecodeBinary" || len(fd.Decl.Recv.List[0].Names) == 0 {
+		rel := pkgRel(fd.Pkg.Types)
+		if !(rel == "pkg/consensus" || (all && strings.HasPrefix(rel, "pkg/") && !strings.HasPrefix(rel, "pkg/rpcclient") && !strings.HasPrefix(rel, "pkg/neotest"))) {
+			continue
+		}
+		info := fd.Pkg.TypesInfo
+		if fd.Decl.Recv == nil || fd.Decl.Body == nil || fd.Decl.Name.Name != "DecodeBinary" || len(fd.Decl.Recv.List[0].Names) == 0 {
 			continue
 		}
 		rt := fd.Obj.Type().(*types.Signature).Recv().Type()
@@ -7877,6 +7884,10 @@ func ruleWireFieldUsed(c *Ctx) {
 		ts = append(ts, ti)
 	}
 	sort.Slice(ts, func(i, j int) bool { return ts[i].nt.Obj().Name() < ts[j].nt.Obj().Name() })
+	pkgName := func(nt *types.Named) string {
+		r := pkgRel(nt.Obj().Pkg())
+		return r[strings.LastIndex(r, "/")+1:]
+	}
 	// reads of fields anywhere in the module outside the codec methods of the owning type
 	read := map[*types.Var]bool{}
 	codec := map[string]bool{"DecodeBinary": true, "EncodeBinary": true}
@@ -7934,13 +7945,13 @@ func ruleWireFieldUsed(c *Ctx) {
 		sort.Slice(fs, func(i, j int) bool { return fs[i].Name() < fs[j].Name() })
 		for _, v := range fs {
 			n++
-			key := ti.nt.Obj().Name() + "." + v.Name()
+			key := pkgName(ti.nt) + "." + ti.nt.Obj().Name() + "." + v.Name()
 			if read[v] {
 				c.OK(key, c.P.Pos(ti.fields[v]), "decoded and used")
 			} else {
-				c.Fail(key, c.P.Pos(ti.fields[v]), fmt.Sprintf("consensus.%s.%s is written by the encoder and read back by the decoder, and nothing else in the module reads it: what the sender put on the wire is dropped by the receiver, and whatever is rebuilt from a decoded %s takes that value from somewhere else (a payload rebuilt from a recovery message then differs from the payload that was packed: another hash, and the witness that travelled with it no longer fits)", ti.nt.Obj().Name(), v.Name(), ti.nt.Obj().Name()))
+				c.Fail(key, c.P.Pos(ti.fields[v]), fmt.Sprintf("%s.%s.%s is written by the encoder and read back by the decoder, and nothing else in the module reads it: what the sender put on the wire is dropped by the receiver, and whatever is rebuilt from a decoded %s takes that value from somewhere else (a payload rebuilt from a recovery message then differs from the payload that was packed: another hash, and the witness that travelled with it no longer fits)", pkgName(ti.nt), ti.nt.Obj().Name(), v.Name(), ti.nt.Obj().Name()))
 			}
 		}
 	}
-	c.Floor("decoded fields of consensus messages", n, 20)
+	c.Floor("decoded fields of wire types", n, 20)
 }
